@@ -173,6 +173,12 @@ def stepNode (inp : QRec) : Node → Option NodeReport
     (layerTypes kind inp w b shape ap).map fun lt =>
       { input := inp, types := some lt, output := outputOf act lt.accumulator }
 
+/-- `adjust_accumulator_for_auto_po2` asserts `kernel_shape[-1] == 1` for depthwise layers
+    ("depth_multiplier must be 1"): QTools raises AssertionError for such a model -/
+def autoPo2Rejects : Node → Bool
+  | .layer .depthwise _ _ shape _ (some _) => shape.getLast? != some 1
+  | _ => false
+
 /-- reports of every node of a chain fed by a source of type `src` -/
 def chainTypes (src : QRec) : List Node → Option (List NodeReport)
   | [] => some []
